@@ -43,7 +43,7 @@ Definition gen_mappings : list (string * string * string * option bool * option 
   ("parseSectionMapping", "parseMapping", "<call %q section>", None, None);
   ("parseScheduleEvent", "parseMapping", "element of ""schedule"" section", (Some false), (Some true));
   ("parseWorkflowDispatchEvent", "parseSectionMapping", "workflow_dispatch", (Some true), (Some true));
-  ("parseWorkflowDispatchEvent", "parseSectionMapping", "inputs", (Some true), (Some true));
+  ("parseWorkflowDispatchEvent", "parseSectionMapping", "inputs", (Some true), (Some false));
   ("parseWorkflowDispatchEvent", "parseMapping", "input settings of workflow_dispatch event", (Some true), (Some true));
   ("parseRepositoryDispatchEvent", "parseSectionMapping", "repository_dispatch", (Some true), (Some true));
   ("parseWebhookEvent", "parseSectionMapping", "<name.Value>", (Some true), (Some true));
